@@ -31,7 +31,20 @@ def lib(kind):
     return getattr(U, kind)
 
 
+HIST = [False]
+
+
 def mk(kind, unit, v):
+    if HIST[0] and kind not in NUM:
+        us = SI.units(kind)
+        u0 = us[(us.index(unit) + 1) % len(us)]
+        if u0 != unit:
+            try:
+                q = lib(kind)(SI.convert(kind, v, unit, u0), u0)
+                q.to(unit, inplace=True)
+                return q
+            except ValueError:
+                pass
     if kind == 'int':
         return int(round(v)) if abs(v) >= 1 else (0 if v == 0 else (1 if v > 0 else -1))
     if kind == 'float':
@@ -46,11 +59,14 @@ def si_of(kind, unit, v):
 
 
 def values_for(rng, kind, tier):
+    """magnitudes for one operand; negatives (where the kind allows) come early so that even the 4-pair quick
+    tier combines a negative left operand with a positive right one and vice versa"""
     sc = SI.SIGN.get(kind)
-    vs = [float(f'{10 ** rng.uniform(-3, 4):.4g}') for _ in range(2 if tier == 'quick' else 5)] + [3.0, 0.5]
-    out = list(vs)
+    vs = [float(f'{10 ** rng.uniform(-3, 4):.4g}') for _ in range(2 if tier == 'quick' else 5)]
     if sc is None or kind in NUM:
-        out += [-vs[0], -2.0]
+        out = [vs[0], -vs[1], 3.0, -2.0, 0.5] + vs[2:] + [-vs[0]]
+    else:
+        out = [vs[0], vs[1], 3.0, 0.5] + vs[2:]
     if sc != '>0':
         out.append(0.0)
     return out
@@ -80,10 +96,19 @@ def judge(ctx, ka, ua, va, op, kb, ub, vb, case, want_result=False):
         return ('bad',)
     except ValueError as ex:
         ctx.count('ValueError')
-        constrained = any(SI.SIGN.get(k) for k in (ka, kb)) or any(SI.SIGN.get(k) for k in result_kinds(ka, op, kb))
         exact = exact_result(sa, op, sb)
-        nonpos = (exact is not None and exact <= 0) or (ka in NUM and sa <= 0) or (kb in NUM and sb <= 0)
-        if constrained and nonpos:
+        ok = False
+        # (A) scaling a sign-constrained quantity by a non-positive number
+        if (ka in NUM and sa <= 0 and SI.SIGN.get(kb)) or (kb in NUM and sb <= 0 and SI.SIGN.get(ka)):
+            ok = True
+        # (B) documented intermediate construction in the LEFT operand's (sign-constrained) class for sums / differences
+        if op in '+-' and ka not in NUM and kb not in NUM and SI.SIGN.get(ka) and exact is not None and not valid_for(ka, exact):
+            ok = True
+        # (C) every kind the result could legitimately have is sign-constrained and the exact result violates it
+        rk_all = [k for k in result_kinds(ka, op, kb) if k != 'number']
+        if rk_all and exact is not None and all(SI.SIGN.get(k) and not valid_for(k, exact) for k in rk_all):
+            ok = True
+        if ok:
             return ('exc', 'ValueError')
         wit['exception'] = 'ValueError: ' + str(ex)[:120]
         ctx.violation('C06:unexpected-ValueError', wit, case)
@@ -128,6 +153,11 @@ def judge(ctx, ka, ua, va, op, kb, ub, vb, case, want_result=False):
         ctx.violation('C06:sign-constraint-broken-by-result', wit, case)
         return ('bad',)
     return ('ok', rs, rk, r)
+
+
+def valid_for(kind, x):
+    sc = SI.SIGN.get(kind)
+    return x > 0 if sc == '>0' else (x >= 0 if sc == '>=0' else True)
 
 
 def is_d10(ka, op, kb, sa, sb, rs, rk):
@@ -188,13 +218,19 @@ def run_combo(ctx, idx, A, op, Bq, tier, matrix=None):
     vas, vbs = values_for(rng, ka, tier), values_for(rng, kb, tier)
     n = 4 if tier == 'quick' else 9
     pairs = [(vas[i % len(vas)], vbs[(i * 3 + 1) % len(vbs)]) for i in range(n)]
+    if op in '+-':
+        pairs.append((vas[1], vbs[0] * 1e-3))          # a (possibly negative) left operand dominating a small right one
     if op == '/' and SI.SIGN.get(kb) != '>0':
         pairs.append((vas[0], 0.0))
     if op in '+-' and ka not in NUM and kb not in NUM:
         pairs.append((vas[1], vbs[1] * 1e3))
         pairs.append((vas[0], vas[0]))
     outcomes = set()
-    for va, vb in pairs:
+    for n_pair, (va, vb) in enumerate(pairs):
+        # every other pair uses operands that went through an in-place conversion first (object history)
+        HIST[0] = bool(n_pair % 2)
+        if HIST[0]:
+            ctx.count('operations_on_converted_objects')
         res = judge(ctx, ka, ua, va, op, kb, ub, vb, case)
         outcomes.add(res[1] if res[0] == 'exc' else ('result:' + res[2] if res[0] in ('ok', 'd10') else 'bad'))
         if res[0] == 'ok' and (ka != kb or ua != ub):
@@ -232,6 +268,7 @@ def run_combo(ctx, idx, A, op, Bq, tier, matrix=None):
                         ctx.known_finding(d10_id(ka if res[0] == 'd10' else kb), wit, case)
                     else:
                         ctx.violation('C06:inverse-law-antisymmetry', wit, case)
+    HIST[0] = False
     for o in outcomes:
         ctx.seen('matrix', f'{ka}{op}{kb}=>{o}')
 
